@@ -208,7 +208,28 @@ pub fn master_seed() -> u64 {
 fn run_guarded(s: &dyn Scenario, case: &Value) -> Result<Outcome, String> {
   match catch_unwind(AssertUnwindSafe(|| s.run(case))) {
     Ok(r) => r,
-    Err(p) => Err(format!("HARNESS-PANIC: {}", crate::world::panic_message(&*p))),
+    Err(p) => {
+      let msg = crate::world::panic_message(&*p);
+      // the simulator's own resource budget is a harness matter; every other panic
+      // that escapes a scenario came out of the code under test (or shows that its
+      // behaviour left what the oracle can digest): on the unchanged tree no run
+      // panics, so it is reported as a violation, not swallowed as a harness error
+      if matches!(p.downcast_ref::<crate::world::SimAbort>(), Some(crate::world::SimAbort::WouldHang) | Some(crate::world::SimAbort::Aborted)) {
+        return Err(format!("HARNESS-PANIC: {}", msg));
+      }
+      let prefix = s.name().split('.').next().unwrap_or("run").to_string();
+      Ok(Outcome {
+        violation: Some(Violation { rule: format!("{}.panic", prefix), site: "uncaught panic".into(), detail: format!("the run panicked: {}", msg) }),
+        trace_hash: hash_str(&msg),
+        nontrivial: true,
+        sim_ns: 0,
+        steps: 0,
+        faults: vec![],
+        reach: vec![],
+        resolved: None,
+        sample: format!("panic: {}", msg),
+      })
+    }
   }
 }
 
